@@ -1,9 +1,10 @@
 #!/usr/bin/env python3
-"""validate MANIFEST.json and evidence/*.json against the schemas (needs jsonschema: run with python3-vt)"""
-import json, glob, jsonschema, sys
-jsonschema.validate(json.load(open('/verif/MANIFEST.json')), json.load(open('/root/.vp/MANIFEST.schema.json')))
+"""validate MANIFEST.json and evidence/*.json of the tree this script lives in (needs jsonschema: run with python3-vt)"""
+import json, glob, jsonschema, sys, os
+ROOT = os.path.dirname(os.path.dirname(os.path.abspath(__file__)))
+jsonschema.validate(json.load(open(os.path.join(ROOT, 'MANIFEST.json'))), json.load(open('/root/.vp/MANIFEST.schema.json')))
 print("manifest ok")
 es = json.load(open('/root/.vp/EVIDENCE.schema.json'))
-for f in sorted(glob.glob('/verif/evidence/*.json')):
+for f in sorted(glob.glob(os.path.join(ROOT, 'evidence', '*.json'))):
     jsonschema.validate(json.load(open(f)), es)
     print(f, "ok")
